@@ -2,6 +2,9 @@ package quic
 
 import (
 	"context"
+	"math"
+	"slices"
+	"time"
 
 	"github.com/refraction-networking/uquic/internal/ackhandler"
 	"github.com/refraction-networking/uquic/internal/handshake"
@@ -11,6 +14,59 @@ import (
 	"github.com/refraction-networking/uquic/qlogwriter"
 	tls "github.com/refraction-networking/utls"
 )
+
+// [UQUIC] configCoveringSpec returns conf, raised where necessary so that every limit the
+// connection enforces on its peer is at least the value advertised by the transport parameters
+// of the spec's QUICTransportParametersExtension. A peer that stays within the advertised
+// initial_max_data, initial_max_stream_data_*, initial_max_streams_*, max_datagram_frame_size
+// and max_idle_timeout must never be answered with a FLOW_CONTROL_ERROR, STREAM_LIMIT_ERROR,
+// FRAME_ENCODING_ERROR or an early idle timeout. Values the Config already covers are kept.
+// (The active_connection_id_limit is handled by connIDManager.SetConnectionIDLimit.)
+func configCoveringSpec(conf *Config, spec *QUICSpec) *Config {
+	if spec == nil || spec.ClientHelloSpec == nil {
+		return conf
+	}
+	c := conf.Clone()
+	for _, ext := range spec.ClientHelloSpec.Extensions {
+		qtp, ok := ext.(*tls.QUICTransportParametersExtension)
+		if !ok {
+			continue
+		}
+		for _, p := range qtp.TransportParameters {
+			if slices.Contains(spec.SuppressTransportParameters, p.ID()) {
+				continue // will not be sent
+			}
+			switch v := p.(type) {
+			case tls.InitialMaxData:
+				c.InitialConnectionReceiveWindow = max(c.InitialConnectionReceiveWindow, uint64(v))
+			case tls.InitialMaxStreamDataBidiLocal:
+				c.InitialStreamReceiveWindow = max(c.InitialStreamReceiveWindow, uint64(v))
+			case tls.InitialMaxStreamDataBidiRemote:
+				c.InitialStreamReceiveWindow = max(c.InitialStreamReceiveWindow, uint64(v))
+			case tls.InitialMaxStreamDataUni:
+				c.InitialStreamReceiveWindow = max(c.InitialStreamReceiveWindow, uint64(v))
+			case tls.InitialMaxStreamsBidi:
+				c.MaxIncomingStreams = max(c.MaxIncomingStreams, int64(min(uint64(v), uint64(protocol.MaxStreamCount))))
+			case tls.InitialMaxStreamsUni:
+				c.MaxIncomingUniStreams = max(c.MaxIncomingUniStreams, int64(min(uint64(v), uint64(protocol.MaxStreamCount))))
+			case tls.MaxDatagramFrameSize:
+				if v > 0 {
+					c.EnableDatagrams = true
+				}
+			case tls.MaxIdleTimeout:
+				// in milliseconds; values that do not fit a time.Duration are not raised to
+				if uint64(v) <= uint64(math.MaxInt64/int64(time.Millisecond)) {
+					c.MaxIdleTimeout = max(c.MaxIdleTimeout, time.Duration(v)*time.Millisecond)
+				}
+			}
+		}
+		break // newUClientConnection uses the first QUICTransportParametersExtension
+	}
+	// the auto-tuning maxima must not be below the initial windows
+	c.MaxStreamReceiveWindow = max(c.MaxStreamReceiveWindow, c.InitialStreamReceiveWindow)
+	c.MaxConnectionReceiveWindow = max(c.MaxConnectionReceiveWindow, c.InitialConnectionReceiveWindow)
+	return c
+}
 
 // [UQUIC]
 var newUClientConnection = func(
@@ -68,6 +124,10 @@ var newUClientConnection = func(
 		connIDGenerator,
 	)
 	s.ctx, s.ctxCancel = context.WithCancelCause(ctx)
+	// [UQUIC] The transport parameters on the wire come from the spec, but the limits the
+	// connection enforces (receive windows, stream counts, DATAGRAM support, idle timeout) are
+	// set up from the Config by preSetup. Make sure they are at least what we advertise.
+	s.config = configCoveringSpec(conf, uSpec)
 	s.preSetup()
 	// [UQUIC] A QUICSpec is authoritative over the Initial CRYPTO framing (via
 	// InitialPacketSpec.FrameBuilder), and uPacketPacker re-frames every Initial
